@@ -408,9 +408,17 @@ pub fn run_program(files: &Rendered, declared: &[String], rtape: &[u16], respons
     Ok(res)
 }
 
-fn run_input(input: &Value) -> Result<(), Fail> {
+fn run_input(input: &Value, strict: bool, report: &Report) -> Result<(), Fail> {
     let files = cases::load_case_files(input);
-    let compiled = compile_files(&files).unwrap_or_else(|e| vcore::inconclusive(&format!("replay: the program is not accepted any more ({e})")));
+    let compiled = match compile_files(&files) {
+        Ok(c) => c,
+        // a checked-in input the compiler no longer accepts says nothing about this property
+        Err(e) if !strict => {
+            report.label(&format!("regression-input-not-accepted({e})"));
+            return Ok(());
+        }
+        Err(e) => vcore::inconclusive(&format!("replay: the program is not accepted any more ({e})")),
+    };
     let path = input["entrypoint"].as_str().unwrap_or_default();
     let ep = entrypoint_case(&compiled.set, path).unwrap_or_else(|e| vcore::inconclusive(&format!("replay: {}", e.0)));
     judge(&ep, &input["response"], &input["variables"]).map(|_| ()).map_err(|f| refine_signature(f, &files, &input["response"], &ep, &compiled.schema))
@@ -459,12 +467,12 @@ pub fn run(args: &Args) {
         report.case(Some(&v["input"].to_string()), &["replay"]);
         report.case(Some("replay-marker"), &[]);
         report.sample("replay", 1, || v["input"].clone());
-        if let Err(f) = run_input(&v["input"]) {
+        if let Err(f) = run_input(&v["input"], true, &report) {
             report.violation("replay", &f, v["input"].clone());
         }
         report.finish();
     }
-    report.run_regressions(run_input);
+    report.run_regressions(|i| run_input(i, false, &report));
 
     let ex = Exclusions::default();
     let n = args.tier.pick(400u32, 20_000u32);
